@@ -34,7 +34,7 @@ Section Tree3.
   Lemma avcc_ok m : dok d 0 (dec_avcc m).
   Proof.
     apply (dok_leaf d Hd Hlen _ (fun _ => 18750000) (fun _ => 18750000) (avcc_cost m));
-      [intros; unfold hev1_W, hvcc_W, hvcc_A; lia..|apply dec_avcc_sat].
+      [intros; unfold lv0_W, lv0_A; lia..|apply dec_avcc_sat].
   Qed.
 
   (** avc1: the child search loop advances by at least one byte per iteration *)
